@@ -36,6 +36,14 @@ def check_subvectors(inp):
         fails.append(failure(we, ev, note="environmental_vector()"))
     if not isinstance(tv, type("")) or not isinstance(ev, type("")):
         return fails
+    for label, x in obs.survivors(C, s):
+        try:
+            got = (x.temporal_vector(), x.environmental_vector())
+        except BaseException as e:  # noqa
+            got = "%s: %s" % (type(e).__name__, e)
+        if got != (wt, we):
+            fails.append(failure([wt, we], got, note=label))
+            break
     re_assembled = prefix + "/".join("%s:%s" % (k, m[k]) for k in V.mandatory) + "/" + tv + "/" + ev
     k, o2 = obs.construct(ver, re_assembled)
     if k != "ok":
